@@ -13,35 +13,38 @@ Proof.
   apply in_seq. pose proof (nat_ascii_bounded c). lia.
 Qed.
 
-(* same shape, and character tests that agree on every character: the two expressions have the same language *)
-Fixpoint re_eqv (a b : re) : bool :=
-  match a, b with
-  | Emp, Emp | Eps, Eps => true
-  | Chr f, Chr g => forallb (fun c => Bool.eqb (f c) (g c)) all_ascii
-  | Cat a1 a2, Cat b1 b2 | Alt a1 a2, Alt b1 b2 => re_eqv a1 b1 && re_eqv a2 b2
-  | Star a1, Star b1 => re_eqv a1 b1
-  | _, _ => false
+(* the derivative with respect to EVERY character of a list at once: defined when each character test of the expression
+   gives the same answer on the whole list *)
+Fixpoint sderiv (cs : list ascii) (r : re) : option re :=
+  match r with
+  | Emp | Eps => Some Emp
+  | Chr f => if forallb f cs then Some Eps else if forallb (fun c => negb (f c)) cs then Some Emp else None
+  | Cat a b =>
+      match sderiv cs a with
+      | None => None
+      | Some da => if nullable a then match sderiv cs b with Some db => Some (mkAlt (mkCat da b) db) | None => None end
+                   else Some (mkCat da b)
+      end
+  | Alt a b => match sderiv cs a, sderiv cs b with Some da, Some db => Some (mkAlt da db) | _, _ => None end
+  | Star a => match sderiv cs a with Some da => Some (mkCat da (Star a)) | None => None end
   end.
 
-Lemma star_congr a b : (forall s, lang a s -> lang b s) -> forall s, lang (Star a) s -> lang (Star b) s.
+Lemma sderiv_spec cs r : forall d, sderiv cs r = Some d -> forall c, In c cs -> deriv c r = d.
 Proof.
-  intros H s L. remember (Star a) as r eqn:E. induction L as [| | | | | a'|a' u t Hu _ Ht IHt]; try discriminate.
-  - constructor.
-  - injection E as ->. constructor; [apply H; exact Hu | apply IHt; reflexivity].
-Qed.
-
-Lemma re_eqv_lang a : forall b, re_eqv a b = true -> forall s, lang a s <-> lang b s.
-Proof.
-  induction a as [| |f|a1 IH1 a2 IH2|a1 IH1 a2 IH2|a1 IH1]; intros b E s; destruct b as [| |g|b1 b2|b1 b2|b1]; try discriminate; cbn [re_eqv] in E.
-  - tauto.
-  - tauto.
-  - rewrite forallb_forall in E. split; intro L; apply chr_inv in L as (c & -> & Hc); constructor;
-      specialize (E c (in_all_ascii c)); apply eqb_prop in E; congruence.
-  - apply andb_prop in E as [E1 E2]. split; intro L; apply cat_inv in L as (u & v & -> & Lu & Lv); constructor;
-      [apply (IH1 b1 E1) | apply (IH2 b2 E2) | apply (IH1 b1 E1) | apply (IH2 b2 E2)]; assumption.
-  - apply andb_prop in E as [E1 E2]. split; intro L; apply alt_inv in L as [L|L];
-      [apply LAltL, (IH1 b1 E1) | apply LAltR, (IH2 b2 E2) | apply LAltL, (IH1 b1 E1) | apply LAltR, (IH2 b2 E2)]; assumption.
-  - split; apply star_congr; intros u Lu; apply (IH1 b1 E); exact Lu.
+  induction r as [| |f|a IHa b IHb|a IHa b IHb|a IHa]; intros d H c Hc; cbn [sderiv deriv] in *.
+  - injection H as <-. reflexivity.
+  - injection H as <-. reflexivity.
+  - destruct (forallb f cs) eqn:E1.
+    + injection H as <-. rewrite forallb_forall in E1. rewrite (E1 c Hc). reflexivity.
+    + destruct (forallb (fun c0 => negb (f c0)) cs) eqn:E2; [|discriminate]. injection H as <-.
+      rewrite forallb_forall in E2. specialize (E2 c Hc). apply negb_true_iff in E2. rewrite E2. reflexivity.
+  - destruct (sderiv cs a) as [da|]; [|discriminate]. rewrite (IHa da eq_refl c Hc).
+    destruct (nullable a).
+    + destruct (sderiv cs b) as [db|]; [|discriminate]. injection H as <-. rewrite (IHb db eq_refl c Hc). reflexivity.
+    + injection H as <-. reflexivity.
+  - destruct (sderiv cs a) as [da|]; [|discriminate]. destruct (sderiv cs b) as [db|]; [|discriminate].
+    injection H as <-. rewrite (IHa da eq_refl c Hc), (IHb db eq_refl c Hc). reflexivity.
+  - destruct (sderiv cs a) as [da|]; [|discriminate]. injection H as <-. rewrite (IHa da eq_refl c Hc). reflexivity.
 Qed.
 
 Inductive sym := SC (c : ascii) | SAny (rs : list (nat * nat)).
@@ -49,36 +52,21 @@ Definition conc1 (y : sym) (c : ascii) : Prop := match y with SC c' => c = c' | 
 Definition conc (ss : list sym) (s : list ascii) : Prop := Forall2 conc1 ss s.
 Definition chars_of (rs : list (nat * nat)) : list ascii := filter (in_ranges rs) all_ascii.
 
-Definition smatch_list (r : re) (l : list ascii) (k : re -> bool) : bool :=
-  match l with
-  | [] => false
-  | c0 :: cs => forallb (fun c => re_eqv (deriv c r) (deriv c0 r)) cs && k (deriv c0 r)
-  end.
-
 Fixpoint smatch (r : re) (ss : list sym) : bool :=
   match ss with
   | [] => nullable r
   | SC c :: t => smatch (deriv c r) t
-  | SAny rs :: t => smatch_list r (chars_of rs) (fun d => smatch d t)
+  | SAny rs :: t => match sderiv (chars_of rs) r with Some d => smatch d t | None => false end
   end.
 
 Lemma in_chars_of rs c : in_ranges rs c = true -> In c (chars_of rs).
 Proof. intro H. unfold chars_of. apply filter_In. split; [apply in_all_ascii | exact H]. Qed.
 Strategy opaque [all_ascii chars_of].
 
-Lemma smatch_any r rs t : smatch r (SAny rs :: t) = smatch_list r (chars_of rs) (fun d => smatch d t).
+Lemma smatch_any r rs t : smatch r (SAny rs :: t) = match sderiv (chars_of rs) r with Some d => smatch d t | None => false end.
 Proof. reflexivity. Qed.
 Lemma smatch_chr r c t : smatch r (SC c :: t) = smatch (deriv c r) t.
 Proof. reflexivity. Qed.
-
-Lemma smatch_list_sound r l k s c : smatch_list r l k = true -> In c l ->
-  (forall d, k d = true -> matches d s = true) -> matches (deriv c r) s = true.
-Proof.
-  destruct l as [|c0 cs]; [discriminate|]. unfold smatch_list. intros H Hin K.
-  apply andb_prop in H as [Hall Hm]. destruct Hin as [<-|Hin]; [apply K; exact Hm|].
-  rewrite forallb_forall in Hall. specialize (Hall c Hin).
-  apply matches_correct. apply (re_eqv_lang _ _ Hall). apply matches_correct. apply K; exact Hm.
-Qed.
 
 Theorem smatch_sound : forall ss r, smatch r ss = true -> forall s, conc ss s -> matches r s = true.
 Proof.
@@ -87,9 +75,8 @@ Proof.
   - destruct y as [c'|rs].
     + rewrite smatch_chr in H. unfold conc1 in Hc. subst c'. change (matches (deriv c r) s' = true). apply IH; assumption.
     + rewrite smatch_any in H. unfold conc1 in Hc. change (matches (deriv c r) s' = true).
-      apply (smatch_list_sound r (chars_of rs) (fun d => smatch d ss) s' c H).
-      * apply in_chars_of. exact Hc.
-      * intros d Hd. apply IH; assumption.
+      destruct (sderiv (chars_of rs) r) as [d|] eqn:E; [|discriminate].
+      rewrite (sderiv_spec _ _ d E c (in_chars_of rs c Hc)). apply IH; assumption.
 Qed.
 
 (* building concretisations *)
